@@ -12,7 +12,7 @@
    compute_child_layout) where memo's [hide] is structural, hence the two directions: same fuel suffices doc -> taffy,
    some larger fuel taffy -> doc. *)
 From Coq Require Import List Bool Arith NArith Lia.
-From TV Require Import Model.Engine Model.EngineToy Model.EngineDoc Proofs.EngineMemo.
+From TV Require Import Model.Engine Model.EngineToy Model.EngineDoc Proofs.EngineMemo Proofs.EngineDirty.
 Import ListNotations.
 
 Section DocEquiv.
@@ -231,6 +231,74 @@ Section DocEquiv.
     apply (memo_doc_mono f' (Nat.max f f')) in H'; [|lia]. congruence.
   Qed.
 End DocEquiv.
+
+(* ---------- the examples as written (no hidden-mode line) are right as long as nothing is display:none ---------- *)
+Section LiteralWithoutNone.
+  Variables (S In Out Lay : Type).
+  Variable mode : In -> RunMode.
+  Variable in_eqb : In -> In -> bool.
+  Variable is_none : S -> bool.
+  Variable hidden_out : Out.
+  Variable zero_lay : Lay.
+  Variable hidden_in : In.
+  Variable calgo : S -> list S -> In -> Alg In Out Lay.
+  Variable lalgo : S -> In -> Out.
+  Variable kind_of : S -> nat -> kind.
+
+  Notation tree := (tree S In Out Lay).
+  Notation TNode := (Node S In Out Lay).
+  Notation algo := (taffy_algo S In Out Lay calgo lalgo).
+  Notation memo := (memo S In Out Lay mode in_eqb is_none hidden_out zero_lay algo).
+  Notation memo_lit := (memo_doc S In Out Lay mode in_eqb hidden_out zero_lay hidden_in calgo lalgo kind_of (fun _ => false)).
+  Notation run_memo := (run_memo S In Out Lay).
+  Notation style_of := (style_of S In Out Lay).
+
+  Hypothesis Hk : forall s n, kind_of s n = kind_taffy S is_none s n.
+  (* WF (trace-validated for the real algorithms): a container function never issues a hidden-mode query *)
+  Hypothesis HWF : forall s st i, WFAlg In Out Lay mode (calgo s st i).
+
+  Inductive NoNone : tree -> Prop :=
+  | NN s c l kids : is_none s = false -> Forall NoNone kids -> NoNone (TNode s c l kids).
+
+  Definition ev_agree (ev1 ev2 : tree -> In -> option (Out * tree)) : Prop :=
+    forall t i, NoNone t -> mode i <> PerformHiddenLayout ->
+      ev1 t i = ev2 t i /\ (forall r, ev2 t i = Some r -> NoNone (snd r)).
+
+  Lemma run_memo_agree ev1 ev2 : ev_agree ev1 ev2 ->
+    forall a kids, WFAlg In Out Lay mode a -> Forall NoNone kids ->
+      run_memo ev1 kids a = run_memo ev2 kids a /\ (forall r, run_memo ev2 kids a = Some r -> Forall NoNone (snd r)).
+  Proof.
+    intros Hev a. induction a as [o0|c i k IH|c l k IH]; intros kids HW HN; cbn.
+    - split; [reflexivity|]. intros r H. injection H as <-. exact HN.
+    - inversion HW as [|c0 i0 k0 Hm Hk0|]; subst.
+      destruct (nth_error kids c) as [t|] eqn:En; [|split; [reflexivity|discriminate]].
+      assert (Ht : NoNone t) by (rewrite Forall_forall in HN; apply HN; eapply nth_error_In; eauto).
+      destruct (Hev t i Ht Hm) as [E Hr]. rewrite E.
+      destruct (ev2 t i) as [[o1 t1]|] eqn:E2; [|split; [reflexivity|discriminate]].
+      apply IH; [apply Hk0|]. apply Forall_replace_nth; [exact HN|]. exact (Hr _ eq_refl).
+    - inversion HW; subst.
+      destruct (nth_error kids c) as [t|] eqn:En; [|split; [reflexivity|discriminate]].
+      assert (Ht : NoNone t) by (rewrite Forall_forall in HN; apply HN; eapply nth_error_In; eauto).
+      apply IH; [assumption|]. apply Forall_replace_nth; [exact HN|].
+      destruct t; inversion Ht; subst; constructor; assumption.
+  Qed.
+
+  Theorem literal_without_none : forall f, ev_agree (memo_lit f) (memo f).
+  Proof.
+    induction f as [|f IH]; intros t i HN Hm; [split; [reflexivity|discriminate]|].
+    destruct t as [s c l kids]. inversion HN as [s0 c0 l0 kids0 Hs Hkids]; subst.
+    cbn [EngineDoc.memo_doc Engine.memo]. unfold eff_kind. rewrite Hk. unfold kind_taffy. rewrite Hs.
+    destruct (mode i) eqn:Em; [| |congruence].
+    all: destruct (cget In Out mode in_eqb c i) as [o1|]; [split; [reflexivity|]; intros r H; injection H as <-; exact HN|].
+    all: destruct kids as [|k0 kids0]; [cbn; split; [reflexivity|]; intros r H; injection H as <-; constructor; [exact Hs|constructor]|].
+    all: cbn [length map taffy_algo].
+    all: destruct (run_memo_agree _ _ IH (calgo s (style_of k0 :: map style_of kids0) i) (k0 :: kids0) (HWF _ _ _) Hkids) as [E Hr].
+    all: cbn [map] in E; rewrite E.
+    all: destruct (run_memo (memo f) (k0 :: kids0) (calgo s (style_of k0 :: map style_of kids0) i)) as [[o1 k1]|] eqn:E2;
+         [|split; [reflexivity|discriminate]].
+    all: split; [reflexivity|]; intros r H; injection H as <-; constructor; [exact Hs|exact (Hr _ eq_refl)].
+  Qed.
+End LiteralWithoutNone.
 
 (* ---------- the trap, on the toy instance ---------- *)
 Lemma trap_taffy :
